@@ -474,19 +474,63 @@ def straddling(kind, width, cut):
     return long_message(kind, width, cut - 1)
 
 
+DENSE_BYTES = 1100
+
+
+def dense_start(kind, align):
+    return len(TEMPLATES[kind][0]) + align
+
+
+def dense_message(kind, width, align):
+    """a run of `width`-byte characters from just behind the fixed prefix (+ `align` ASCII
+    bytes) to beyond byte 1100: over the alignments 0..width-1, EVERY byte offset in that range
+    falls inside a character in at least width-1 of the messages - whatever prefix length some
+    code might cut at"""
+    return long_message(kind, width, dense_start(kind, align), tail=DENSE_BYTES // width)
+
+
+# messages whose multi-byte run begins at offset 2 (a long member name), for cuts below the
+# fixed prefixes above
+EARLY = {
+    'unsolicited': (b'{"', b'":1,"jsonrpc":"2.0","result":1,"id":77}'),
+    'badParams': (b'{"', b'":1,"jsonrpc":"2.0","method":"m","params":5,"id":3}'),
+    'missingJsonrpc': (b'{"', b'":1,"method":"m","id":3}'),
+    'allInvalidBatch': (b'[{"', b'":1,"method":"m","id":3},5]'),
+    'parseJson': (b'{"', b'":1,"jsonrpc":"2.0","method":"m","id":3'),
+}
+
+
+def early_message(kind, width, align):
+    head, foot = EARLY[kind]
+    return head + b'a' * align + WIDE[width].encode() * (140 // width) + foot
+
+
 FACT_CUTS = ((100, (1, 2, 3, 4)), (64, (3,)), (128, (3,)), (256, (3,)), (1000, (3,)), (1024, (3,)))
 
 
+def loop_rows_spec():
+    """(kind, width, start, run, message) of the session grid of the facts"""
+    for kind in KINDS:
+        for cut, widths in FACT_CUTS:
+            for width in widths:
+                yield kind, width, cut - 1, 61, straddling(kind, width, cut)
+        for width in (2, 3, 4):
+            for align in range(width):
+                yield (kind, width, dense_start(kind, align), DENSE_BYTES // width + 1,
+                       dense_message(kind, width, align))
+
+
 def loop_table(repo_mods):
-    """rows (verbose, kind, width, cut, ended): a real server session (2.0, nothing outstanding)
-    is fed one long message, then a probe request"""
+    """rows (verbose, kind, width, start, run, ended): a real server session (2.0, nothing
+    outstanding) is fed one long message - a run of `run` characters of `width` bytes beginning
+    at byte `start` - then a probe request"""
     rows = []
     for verbose in (False, True):
-        for kind in KINDS:
-            for cut, widths in FACT_CUTS:
-                for width in widths:
-                    obs = run_session(repo_mods, 'v2', [], [straddling(kind, width, cut)],
-                                      verbose=verbose)
-                    ended = {'receiving': 'served', 'closed': 'closed'}.get(session_phase(obs), 'wedged')
-                    rows.append((verbose, kind, width, cut, ended))
+        for kind, width, start, run, msg in loop_rows_spec():
+            try:
+                obs = run_session(repo_mods, 'v2', [], [msg], verbose=verbose)
+                ended = {'receiving': 'served', 'closed': 'closed'}.get(session_phase(obs), 'wedged')
+            except Exception:       # noqa: the session could not even be run on this tree
+                ended = 'wedged'
+            rows.append((verbose, kind, width, start, run, ended))
     return rows
